@@ -106,3 +106,52 @@ def emit_setters(R):
     info = {"functions": fns, "rules_fired": {k: v for k, v in R.counts.items() if v},
             "fidelity": X.fidelity("\n".join(src_all), "\n".join(emi_all), extra_vocab=MEMBERS + ["pp", "bpp", "begin", "end", "fill", "copy_n", "checkVarSize", "size", "="], slack=30)}
     return "\n".join(outs) + "\n", info
+
+
+def emit_main(R):
+    """ParticleSwarm: everything after the definition of the two lambdas (cache set-up, update(), the iteration loop).  The lambdas are called through
+    stubs (their own contracts: F19, F20).  Rule R14b: the first test inside the iteration loop (the choice between the update with and without the
+    social term) is wrapped in tsg_mode(), which compares the value tested with the swarm-best flag of the state at that moment."""
+    text = X.strip_comments(X.read_source(CPP))
+    (p,) = X.cut(CPP, SIG, text)
+    params, lb, off = _lambda_source(p.body, "update")
+    start = off + p.body[off:].index(lb) + len(lb)
+    rest = p.body[start:]
+    m = re.match(r'\s*;', rest)
+    if not m:
+        raise X.ExtractionBreak("ParticleSwarm: the update lambda is not followed by ';'")
+    b = rest[m.end():]
+    b = b[:b.rindex('}')]
+    src = b
+    b = R.sub("R11-omp-pragma", r'#\s*pragma\s+omp[^\n]*', '', b)
+    b = R.sub("R10-member", r'\bstate\.(\w+)', r'state->\1', b)
+    b = R.sub("R7-lambda-call", r'(?<![\w.>])f_constrained\(\s*state->particle_positions\s*,\s*state->cache_particle_fvals\s*,\s*state->cache_particle_inside\s*\)', 'stub_f_constrained(state, 0)', b)
+    b = R.sub("R7-lambda-call", r'(?<![\w.>])f_constrained\(\s*state->best_particle_positions\s*,\s*state->cache_best_particle_fvals\s*,\s*state->cache_best_particle_inside\s*\)', 'stub_f_constrained(state, 1)', b)
+    b = R.sub("R7-lambda-call", r'(?<![\w.>])update\(\)', 'stub_update(state, num_particles)', b)
+    b = R.sub("R5-local-vector", r'std::vector<double>\s+rng_cache\(\s*2\s*\*\s*num_particles\s*\)\s*;', 'double rng_cache[2 * TSG_NP]; size_t rng_cache_size = 2 * num_particles; __CPROVER_assert(rng_cache_size <= 2 * TSG_NP, "shim: rng cache capacity");', b)
+    b = R.sub("R6-range-for", r'for\s*\(\s*auto\s*&\s*r\s*:\s*rng_cache\s*\)\s*r\s*=', 'for (size_t r_ = 0; r_ < rng_cache_size; r_++) rng_cache[r_] =', b)
+    b = R.sub("R8-callback", r'(?<![\w.>])get_random01\(\)', 'cb_get_random01()', b)
+    b = X.r2_casts(R, b)
+    # R14b: the mode test of an iteration
+    lm = re.search(r'for\s*\(\s*int\s+iter\s*=\s*0\s*;[^)]*\)\s*\{', b)
+    if not lm:
+        raise X.ExtractionBreak("ParticleSwarm: iteration loop not found")
+    im = re.search(r'if\s*(?=\()', b[lm.end():])
+    if not im:
+        raise X.ExtractionBreak("ParticleSwarm: no test inside the iteration loop")
+    k = lm.end() + im.end()
+    e = X.match_close(b, k, '(', ')')
+    cond = b[k + 1:e]
+    b = b[:lm.end()] + " tsg_iteration_begins(state, num_particles); " + b[lm.end():k] + "(tsg_mode((%s), state, num_particles))" % cond + b[e + 1:]
+    R.counts["R14b-mode-test"] = 1
+    X.check_leftover(b, "ParticleSwarm main")
+    R.require({"R7-lambda-call": 4, "R5-local-vector": 1, "R8-callback": 2})
+    line = p.line + (p.header + p.body[:start]).count('\n')
+    chdr = "void ParticleSwarm_main(int num_iterations, double inertia_weight, double cognitive_coeff, double social_coeff, ParticleSwarmState *state)"
+    out = '#line %d "%s"\n%s{ size_t num_dimensions = (size_t) state->num_dimensions; size_t num_particles = (size_t) state->num_particles;\n%s}\n' % (line, X.REPO + "/" + p.rel, chdr, b)
+    info = {"functions": [{"name": "ParticleSwarm (cache set-up and iteration loop, after the lambdas)", "file": p.rel, "line": line, "loops": X.count_loops(b)}],
+            "fidelity": X.fidelity(src, b, extra_vocab=["state", "f_constrained", "update", "rng_cache", "vector", "auto", "r", "get_random01", "static_cast", "pragma", "omp", "parallel", "for",
+                                                        "particle_positions", "cache_particle_fvals", "cache_particle_inside", "best_particle_positions", "cache_best_particle_fvals", "cache_best_particle_inside"], slack=30),
+            "drops": ["#pragma omp parallel for", "the argument checks and the two lambda definitions before the extracted part (lambdas: own jobs)"],
+            "rules_fired": {k_: v for k_, v in R.counts.items() if v}}
+    return out, info
